@@ -565,4 +565,28 @@ std::string printable(const std::string& s, size_t max) {
   return o;
 }
 
+JVal gen_mixed_key_object(sim::Rng& r, const GenOpts& o) {
+  static const char* u8[] = {"\xe4\xb8\xad", "\xe6\x96\x87", "\xc3\xa9", "\xc3\xbc", "\xf0\x9f\x98\x80", "\xd0\xb6"};
+  auto longkey = [&](bool utf) { std::string k; size_t want = (size_t)r.range(32, r.chance(1, 3) ? 300 : 140); while (k.size() < want) { if (utf && r.chance(2, 3)) k += u8[r.below(6)]; else k += (char)('a' + r.below(26)); if (r.chance(1, 9)) k += '.'; } return k; };
+  JVal v = JVal::obj();
+  size_t n = (size_t)r.range(8, 16);
+  std::string nulstem = std::string("k") + (char)('a' + r.below(3)) + std::string(1, '\0');
+  std::string stem = longkey(r.chance(1, 2));
+  for (size_t i = 0; i < n; i++) {
+    std::string k;
+    switch (r.below(7)) {
+      case 0: k = longkey(true); break;
+      case 1: k = longkey(false); break;
+      case 2: k = gen_key(r, o); break;
+      case 3: k = nulstem + (char)('a' + r.below(6)); break;
+      case 4: k = stem.substr(0, (size_t)r.range(1, (int64_t)stem.size())); break;
+      case 5: { k = stem; k[r.below(k.size())] ^= (char)(r.chance(1, 2) ? 0x80 : 0x01); break; }
+      default: k = std::string(u8[r.below(6)]) + (char)('0' + r.below(10)); break;
+    }
+    if (v.find(k) >= 0) continue;
+    v.o.emplace_back(k, r.chance(1, 5) ? gen_value(r, o, o.max_depth > 1 ? o.max_depth - 1 : 1) : gen_scalar(r, o));
+  }
+  return v;
+}
+
 }  // namespace model
